@@ -132,3 +132,12 @@ Example C08_rejected_nonvacuous :
   validate ex_cfg None [ex_m 1 40; ex_m 2 101] = Some (ETooLarge 1) /\
   validate ex_cfg None [mkMsg 1 (Some 3%N) 40 0] = Some (ETopic 0).
 Proof. split; vm_compute; reflexivity. Qed.
+
+(* ---- the synchronisation skeleton the Writer model assumes (which Go critical section each
+   label of Model/Writer.v stands for: Model/SkeletonAssumptions.v, writer_assumptions) holds
+   of /repo's CURRENT source: facts regenerated by harness/cmd/vskel on every run. *)
+From KV Require Model.SkeletonAssumptions Gen.Skeleton Proofs.SkeletonWriter.
+Theorem C08_skeleton_assumptions :
+  KV.Model.SkeletonAssumptions.writer_assumptions_hold KV.Gen.Skeleton.calls KV.Gen.Skeleton.accesses = true.
+Proof. exact KV.Proofs.SkeletonWriter.writer_skeleton_ok. Qed.
+Print Assumptions C08_skeleton_assumptions.
